@@ -134,6 +134,11 @@ type Final struct {
 // RunWhole runs the battle with one Run() call on a fresh simulator, every
 // offset shifted by shift.
 func RunWhole(b *Battle, shift uint64) (f Final) {
+	return RunAfter(b, shift, 0)
+}
+
+// RunAfter is RunWhole with pre RunCycle calls made before Run().
+func RunAfter(b *Battle, shift uint64, pre int) (f Final) {
 	done := make(chan Final, 1)
 	go func() {
 		var f Final
@@ -162,6 +167,9 @@ func RunWhole(b *Battle, shift uint64) (f Final) {
 				f.Panic = "SpawnWarrior: " + err.Error()
 				return
 			}
+		}
+		for i := 0; i < pre; i++ {
+			sim.RunCycle()
 		}
 		f.Res = sim.Run()
 		f.Cycles = sim.CycleCount()
@@ -432,6 +440,37 @@ func (c *Checker) stepwise(b *Battle) {
 				break
 			}
 		}
+		if c.Props.C04 && len(b.Ws) > 1 {
+			// a second round in the same simulator in which only the first warrior is started again:
+			// the counters and alive flags must still agree with each other
+			stage = "second round"
+			sim.Reset()
+			if err := sim.SpawnWarrior(0, g.Address(b.Ws[0].Off)); err == nil {
+				for k := 0; k < 3; k++ {
+					sim.RunCycle()
+					rep.Transitions++
+					alive := 0
+					for _, h := range hs {
+						if h.Alive() {
+							alive++
+						}
+					}
+					if sim.WarriorLivingCount() != alive {
+						c.fail("C04", "living-count", b, func() string {
+							return fmt.Sprintf("after Reset and a respawn of warrior 0 only: living count %d, %d warriors report alive", sim.WarriorLivingCount(), alive)
+						})
+						break
+					}
+					if q := hs[0].Queue(); hs[0].Alive() != (len(q) > 0) || uint64(len(q)) > b.P {
+						c.fail("C04", "alive-iff-tasks", b, func() string {
+							return fmt.Sprintf("after Reset and a respawn of warrior 0: alive=%v queue=%v", hs[0].Alive(), q)
+						})
+						break
+					}
+				}
+			}
+			rep.Count("c04:second-rounds-after-reset")
+		}
 		if c.Props.C02 {
 			if m.Cycles >= m.MaxCycles {
 				rep.Count("c02:stopped-by-cycle-limit")
@@ -441,7 +480,28 @@ func (c *Checker) stepwise(b *Battle) {
 				rep.Count("c02:single-survivor")
 			}
 			// Run() on a fresh simulator must end in the same state.
-			f := RunWhole(b, 0)
+			// Run() on a fresh simulator, and after one and after three stepped cycles
+			for _, pre := range []int{0, 1, 3} {
+				if pre > 0 && (len(b.Ws) > 2 || b.C > 24) {
+					continue
+				}
+				c.compareRun(b, m, pre)
+			}
+		}
+	}()
+	if panicked != "" {
+		for _, p := range c.plist() {
+			c.fail(p, "panic", b, func() string { return stage + ": " + panicked })
+		}
+	}
+}
+
+// compareRun: Run() (after pre stepped cycles) must end in the reference's final state.
+func (c *Checker) compareRun(b *Battle, m *ref.Mars, pre int) {
+	rep := c.Rep
+	{
+		{
+			f := RunAfter(b, 0, pre)
 			rep.Transitions++
 			rep.Traces++
 			switch {
@@ -458,15 +518,10 @@ func (c *Checker) stepwise(b *Battle) {
 				}
 				if !ok {
 					c.fail("C02", "run-vs-stepping", b, func() string {
-						return fmt.Sprintf("Run(): result=%v cycles=%d core=%s queues=%v; stepping/reference: cycles=%d core=%s", f.Res, f.Cycles, hx.CoreStr(f.Core), f.Queues, m.Cycles, hx.CoreStr(m.Core))
+						return fmt.Sprintf("Run() after %d stepped cycles: result=%v cycles=%d core=%s queues=%v; stepping/reference: cycles=%d core=%s", pre, f.Res, f.Cycles, hx.CoreStr(f.Core), f.Queues, m.Cycles, hx.CoreStr(m.Core))
 					})
 				}
 			}
-		}
-	}()
-	if panicked != "" {
-		for _, p := range c.plist() {
-			c.fail(p, "panic", b, func() string { return stage + ": " + panicked })
 		}
 	}
 }
